@@ -117,3 +117,85 @@ Theorem C17_mov_sequence_correct : forall (is64 : bool) imm rd x init,
               (1 <= length ws <= (if is64 then 4 else 2))%nat.
 Proof. exact mov_sequence_words_correct. Qed.
 Print Assumptions C17_mov_sequence_correct.
+
+(* ---------------------------------------------------------------------------------------------------------------- *)
+(* AArch64 logical (bitmask) immediates, SOUNDNESS for EVERY value of the register width: whatever the encoder accepts
+   decodes (DecodeBitMasks) to exactly the value given; with C17_logical_imm_complete the encoder is exact *)
+From Verif Require Import Codec.LogImmSound.
+
+Theorem C17_logical_imm_sound : forall m imm e,
+  (m = 32 \/ m = 64) -> 0 <= imm < 2 ^ m -> encode_logical_imm imm m = Some e ->
+  decode_bit_masks m (li_n e) (li_s e) (li_r e) = Some imm.
+Proof. exact logical_imm_sound. Qed.
+Print Assumptions C17_logical_imm_sound.
+
+(* ... and the produced fields fit their instruction fields N (1 bit), imms, immr (6 bits each) *)
+Theorem C17_logical_imm_sound_fields : forall m imm e,
+  (m = 32 \/ m = 64) -> 0 <= imm < 2 ^ m -> encode_logical_imm imm m = Some e ->
+  decode_bit_masks m (li_n e) (li_s e) (li_r e) = Some imm /\
+  0 <= li_n e < 2 /\ 0 <= li_s e < 64 /\ 0 <= li_r e < 64.
+Proof. exact logical_imm_sound_fields. Qed.
+Print Assumptions C17_logical_imm_sound_fields.
+
+(* the encoder refuses exactly the values that no field triple (N, imms, immr) denotes *)
+Theorem C17_logical_imm_refused_iff : forall m imm,
+  (m = 32 \/ m = 64) -> 0 <= imm < 2 ^ m ->
+  (encode_logical_imm imm m = None <->
+   ~ exists n s r, 0 <= n < 2 /\ 0 <= s < 64 /\ 0 <= r < 64 /\ decode_bit_masks m n s r = Some imm).
+Proof. exact logical_imm_refused_iff. Qed.
+Print Assumptions C17_logical_imm_refused_iff.
+
+(* ---------------------------------------------------------------------------------------------------------------- *)
+(* the remaining OffsetTypes whose pinned implementation is right: round trip against the architectural decoders for
+   EVERY int64 offset the encoder accepts (the offset is the decoded field scaled by 2^discard) *)
+From Verif Require Import Codec.OffsetFormatsProofs Codec.ByteMaskProofs.
+
+(* Thumb-2 ADR (T2 SUB form / T3 ADD form): i:imm3:imm8 *)
+Theorem C17_t32_adr_roundtrip : forall f off m,
+  is_t32_adr_fmt f -> int64 off -> encode_offset f off = Some m ->
+  decode_t32_adr m * 2 ^ discard f = off /\ 0 <= m < 2 ^ 32.
+Proof. exact t32_adr_roundtrip. Qed.
+Print Assumptions C17_t32_adr_roundtrip.
+
+(* A32 magnitude + U bit (LDR/STR imm12, VLDR imm8*4, ...): any field position below bit 23 *)
+Theorem C17_a32_u23_roundtrip : forall f off m,
+  is_a32_u23_fmt f -> int64 off -> encode_offset f off = Some m ->
+  decode_a32_u23 f m * 2 ^ discard f = off /\ 0 <= m < 2 ^ 32.
+Proof. exact a32_u23_roundtrip. Qed.
+Print Assumptions C17_a32_u23_roundtrip.
+
+(* A32 imm4H:imm4L + U bit (LDRH/LDRD/...) *)
+Theorem C17_a32_u23_split_roundtrip : forall f off m,
+  is_a32_u23_split_fmt f -> int64 off -> encode_offset f off = Some m ->
+  decode_a32_u23_split m * 2 ^ discard f = off /\ 0 <= m < 2 ^ 32.
+Proof. exact a32_u23_split_roundtrip. Qed.
+Print Assumptions C17_a32_u23_split_roundtrip.
+
+(* A32 BLX (A2): imm24:H *)
+Theorem C17_a32_blx_roundtrip : forall f off m,
+  is_a32_blx_fmt f -> int64 off -> encode_offset f off = Some m ->
+  decode_a32_blx m * 2 ^ discard f = off /\ 0 <= m < 2 ^ 32.
+Proof. exact a32_blx_roundtrip. Qed.
+Print Assumptions C17_a32_blx_roundtrip.
+
+(* what the sign-bit formats accept, for every int64 offset (including INT64_MIN, whose negation wraps) *)
+Theorem C17_signbit_accept_spec : forall f off,
+  has_sign_bit (ty f) = true -> 0 < bits f -> bits f <= 32 -> bits f <= vsize f * 8 -> 0 <= discard f <= 31 -> int64 off ->
+  encode_offset32 f off =
+  if (Z.abs off mod 2 ^ discard f =? 0) && (Z.abs off / 2 ^ discard f <? 2 ^ bits f)
+  then post32 (ty f) (vsize f) (bits f) (shift f) (Z.abs off / 2 ^ discard f) (if 0 <=? off then 1 else 0)
+  else None.
+Proof. exact signbit_spec. Qed.
+Print Assumptions C17_signbit_accept_spec.
+
+(* 64-bit byte-mask immediates (MOVI): soundness for EVERY 64-bit value; with C17_byte_mask_complete the test is exact *)
+Theorem C17_byte_mask_sound : forall imm,
+  0 <= imm < 2 ^ 64 -> is_byte_mask_imm imm = true ->
+  expand_byte_mask 8 (encode_byte_mask_imm8 imm) = imm /\ 0 <= encode_byte_mask_imm8 imm < 256.
+Proof. exact byte_mask_sound. Qed.
+Print Assumptions C17_byte_mask_sound.
+
+Theorem C17_byte_mask_accepted_iff : forall imm,
+  is_byte_mask_imm imm = true <-> exists j, 0 <= j < 256 /\ imm = expand_byte_mask 8 j.
+Proof. exact byte_mask_accepted_iff. Qed.
+Print Assumptions C17_byte_mask_accepted_iff.
